@@ -16,50 +16,94 @@ def isEof : Out → Bool
   | .eof => true
   | _ => false
 
+theorem take?_none {n : Nat} {l : Bytes} (h : take? n l = none) : l.length < n := by
+  unfold take? at h
+  split at h
+  · simp at h
+  · omega
+
+/-- last stage: `alloc` is passed through; never more consumed than given; `eof` only with everything
+    consumed; and — `1 + xferLen ≤ last` being established before the stage is entered — every read
+    request is at most `max 4 last` and at most the announced frame (`4 + last` bytes) is consumed. -/
 theorem tail_spec (reg : Registry) (size last alloc xferLen inpLen : Nat) (pipe : List UInt8) (r3 : Bytes) :
     let r := unpackTail reg size last alloc xferLen inpLen pipe r3
     r.alloc = alloc ∧
     (inpLen = 5 + xferLen + r3.length → r.consumed ≤ inpLen) ∧
-    (isEof r.out = true → r.consumed = inpLen) := by
+    (isEof r.out = true → r.consumed = inpLen) ∧
+    (1 + xferLen ≤ last → r.maxReq ≤ max 4 last) ∧
+    (1 + xferLen ≤ last → inpLen = 5 + xferLen + r3.length → r.consumed ≤ 4 + last) := by
   unfold unpackTail
-  by_cases h1 : last < 1 + xferLen
-  · simp [h1, isEof]; omega
-  · simp only [h1, if_false]
-    cases ht : take? (last - (1 + xferLen)) r3 with
-    | none => simp [isEof]
-    | some p =>
-      obtain ⟨raw, rest⟩ := p
-      have hl := take?_len ht
+  simp only []
+  cases ht : take? (last - (1 + xferLen)) r3 with
+  | none =>
+    have hl := take?_none ht
+    simp only [isEof]
+    refine ⟨by first | rfl | trivial, fun _ => Nat.le_refl _, fun _ => by first | rfl | trivial, ?_, ?_⟩
+    · intro h; omega
+    · intro h h'; omega
+  | some p =>
+    obtain ⟨raw, rest⟩ := p
+    have hl := take?_len ht
+    simp only []
+    cases hu : Xfer.onUnpack reg pipe raw with
+    | none =>
+      simp only [isEof]
+      refine ⟨by first | rfl | trivial, ?_, ?_, ?_, ?_⟩
+      · intro h; omega
+      · intro h; cases h
+      · intro h; omega
+      · intro _ _; exact Nat.le_refl _
+    | some data =>
       simp only []
-      cases hu : Xfer.onUnpack reg pipe raw with
-      | none => simp [isEof]; omega
-      | some data =>
-        simp only []
-        cases hp : parseData size pipe data with
-        | error e => simp [isEof]; omega
-        | ok m => simp [isEof]; omega
+      cases hp : parseData size pipe data with
+      | error e =>
+        simp only [isEof]
+        refine ⟨by first | rfl | trivial, ?_, ?_, ?_, ?_⟩
+        · intro h; omega
+        · intro h; cases h
+        · intro h; omega
+        · intro _ _; exact Nat.le_refl _
+      | ok m =>
+        simp only [isEof]
+        refine ⟨by first | rfl | trivial, ?_, ?_, ?_, ?_⟩
+        · intro h; omega
+        · intro h; cases h
+        · intro h; omega
+        · intro _ _; exact Nat.le_refl _
 
-theorem xfer_spec (reg : Registry) (size last cap alloc inpLen : Nat) (r1 : Bytes) :
-    let r := unpackXfer reg size last cap alloc inpLen r1
+/-- middle stage (entered with `1 ≤ last`): as `tail_spec`. -/
+theorem xfer_spec (reg : Registry) (size last alloc inpLen : Nat) (r1 : Bytes) :
+    let r := unpackXfer reg size last alloc inpLen r1
     r.alloc = alloc ∧
     (inpLen = 4 + r1.length → r.consumed ≤ inpLen) ∧
-    (inpLen = 4 + r1.length → isEof r.out = true → r.consumed = inpLen) := by
+    (inpLen = 4 + r1.length → isEof r.out = true → r.consumed = inpLen) ∧
+    (1 ≤ last → r.maxReq ≤ max 4 last) ∧
+    (1 ≤ last → inpLen = 4 + r1.length → r.consumed ≤ 4 + last) := by
   cases r1 with
   | nil =>
     simp only [unpackXfer, List.length_nil]
-    refine ⟨by first | rfl | trivial, ?_, ?_⟩ <;> intro h <;> omega
+    refine ⟨by first | rfl | trivial, ?_, ?_, ?_, ?_⟩
+    · intro h; omega
+    · intro h _; omega
+    · intro _; omega
+    · intro _ _; omega
   | cons xl r2 =>
     simp only [unpackXfer]
-    by_cases h1 : cap < xl.toNat
+    by_cases h1 : last - 1 < xl.toNat
     · simp only [h1, if_true, isEof, List.length_cons]
-      refine ⟨by first | rfl | trivial, ?_, ?_⟩
+      refine ⟨by first | rfl | trivial, ?_, ?_, ?_, ?_⟩
       · intro h; omega
       · intro _ h; cases h
+      · intro _; omega
+      · intro _ _; omega
     · simp only [h1, if_false]
       cases ht : take? xl.toNat r2 with
       | none =>
-        simp only [isEof]
-        exact ⟨by first | rfl | trivial, fun _ => Nat.le_refl _, fun _ _ => by first | rfl | trivial⟩
+        have hl := take?_none ht
+        simp only [isEof, List.length_cons]
+        refine ⟨by first | rfl | trivial, fun _ => Nat.le_refl _, fun _ _ => by first | rfl | trivial, ?_, ?_⟩
+        · intro _; omega
+        · intro _ h; omega
       | some p =>
         obtain ⟨ids, r3⟩ := p
         have hl := take?_len ht
@@ -67,36 +111,40 @@ theorem xfer_spec (reg : Registry) (size last cap alloc inpLen : Nat) (r1 : Byte
         cases ha : Xfer.append reg [] ids with
         | none =>
           simp only [isEof, List.length_cons]
-          refine ⟨by first | rfl | trivial, ?_, ?_⟩
+          refine ⟨by first | rfl | trivial, ?_, ?_, ?_, ?_⟩
           · intro h; omega
           · intro _ h; cases h
+          · intro _; omega
+          · intro _ _; omega
         | some pipe =>
           simp only []
           have ts := tail_spec reg size last alloc xl.toNat inpLen pipe r3
-          refine ⟨ts.1, ?_, ?_⟩
-          · intro h; apply ts.2.1; simp only [List.length_cons] at h; omega
-          · intro _ h; exact ts.2.2 h
+          simp only [List.length_cons]
+          refine ⟨ts.1, ?_, ?_, ?_, ?_⟩
+          · intro h; apply ts.2.1; omega
+          · intro _ h; exact ts.2.2.1 h
+          · intro h; apply ts.2.2.2.1; omega
+          · intro h h'; apply ts.2.2.2.2 (by omega); omega
 
 def isSize : Out → Bool
   | .size => true
   | _ => false
 
 /-- shape of `unpack` on an input of at least four bytes. -/
-theorem unpack_cons4 (reg : Registry) (limit cap0 : Nat) (a b c d : UInt8) (r1 : Bytes) :
-    unpack reg limit cap0 (a :: b :: c :: d :: r1) =
-      if Bytes.rdBe32 a b c d > limit then ⟨.size, 4, 4⟩ else
-      if Bytes.rdBe32 a b c d < 4 then ⟨.reject "err:badpackage", 4, 4⟩ else
-      if (if cap0 < Bytes.rdBe32 a b c d - 4 then Bytes.rdBe32 a b c d - 4 else cap0) < 1
-      then ⟨.reject "panic:cap", 4, max 4 (Bytes.rdBe32 a b c d - 4)⟩ else
+theorem unpack_cons4 (reg : Registry) (limit : Nat) (a b c d : UInt8) (r1 : Bytes) :
+    unpack reg limit (a :: b :: c :: d :: r1) =
+      if Bytes.rdBe32 a b c d > limit then ⟨.size, 4, 4, 4⟩ else
+      if Bytes.rdBe32 a b c d < 4 then ⟨.reject "err:badpackage", 4, 4, 4⟩ else
+      if Bytes.rdBe32 a b c d - 4 < 1
+      then ⟨.reject "err:badpackage", 4, max 4 (Bytes.rdBe32 a b c d - 4), 4⟩ else
       unpackXfer reg (Bytes.rdBe32 a b c d) (Bytes.rdBe32 a b c d - 4)
-        (if cap0 < Bytes.rdBe32 a b c d - 4 then Bytes.rdBe32 a b c d - 4 else cap0)
         (max 4 (Bytes.rdBe32 a b c d - 4)) (a :: b :: c :: d :: r1).length r1 := by
   unfold unpack
   rfl
 
 /-- shape of `unpack` on fewer than four bytes. -/
-theorem unpack_short (reg : Registry) (limit cap0 : Nat) (inp : Bytes) (h : inp.length < 4) :
-    unpack reg limit cap0 inp = ⟨.eof, inp.length, 4⟩ := by
+theorem unpack_short (reg : Registry) (limit : Nat) (inp : Bytes) (h : inp.length < 4) :
+    unpack reg limit inp = ⟨.eof, inp.length, 4, 4⟩ := by
   match inp, h with
   | [], _ => rfl
   | [_], _ => rfl
